@@ -52,6 +52,10 @@ impl Env {
         std::fs::write(d.join("sub/big.bin"), pattern(300_000, 0x33)).ok()?;
         std::fs::write(d.join("sub/unrelated.txt"), b"not in the plan\n").ok()?;
         std::fs::write(d.join("sub/same.txt"), b"identical on both sides\n").ok()?;
+        std::fs::write(s.join("samemtime.txt"), b"the new, longer content of a file whose old copy has the very same mtime\n").ok()?;
+        std::fs::write(d.join("samemtime.txt"), b"old\n").ok()?;
+        let same = std::time::UNIX_EPOCH + std::time::Duration::from_secs(1_550_000_000);
+        for r in [&s, &d] { if let Ok(f) = std::fs::File::options().write(true).open(r.join("samemtime.txt")) { let _ = f.set_modified(same); } }
         std::fs::write(s.join("readonly.txt"), b"new content for a file that is read-only at the destination\n").ok()?;
         std::fs::write(d.join("readonly.txt"), b"old read-only content\n").ok()?;
         { use std::os::unix::fs::PermissionsExt; let _ = std::fs::set_permissions(d.join("readonly.txt"), std::fs::Permissions::from_mode(0o444)); }
